@@ -99,6 +99,11 @@ impl AssetCategorizer {
 
             if let Some(assests) = &utxo.output.amount.multiasset {
                 for policy in &assests.0 {
+                    // assets with a zero quantity (and policies holding nothing else) are nothing:
+                    // they are not carried over into the outputs
+                    if policy.1 .0.values().all(|amount| amount.is_zero()) {
+                        continue;
+                    }
                     let mut current_policy_index = PolicyIndex(policy_count.clone());
                     if let Some(policy_index) = policy_ids.get(policy.0) {
                         current_policy_index = policy_index.clone()
@@ -109,6 +114,9 @@ impl AssetCategorizer {
                     }
 
                     for asset in &policy.1 .0 {
+                        if asset.1.is_zero() {
+                            continue;
+                        }
                         let mut current_asset_index = AssetIndex(asset_count.clone());
                         let plane_id = PlaneAssetId(current_policy_index.clone(), asset.0.clone());
 
